@@ -44,10 +44,26 @@ var c19filters = []quadtree.FilterFunc{
 // stored values: plain points of the harness and, mixed in, the library's own orb.Pointer implementation
 // (*geojson.Feature with a point geometry, a geometry collection, a bbox member): their Point() runs library code
 // on every visit.
+// a pointer type whose methods work on the nil pointer (as many Go types' do): a nil *c19nilable is a value like any
+// other to the tree - Add only refuses the nil interface
+type c19nilable struct{ pt orb.Point }
+
+func (x *c19nilable) Point() orb.Point {
+	if x == nil {
+		return orb.Point{512, 512}
+	}
+	return x.pt
+}
+
 func c19id(p orb.Pointer) int {
 	switch x := p.(type) {
 	case *qitem:
 		return x.id
+	case *c19nilable:
+		if x == nil {
+			return 1000003
+		}
+		return -2
 	case *geojson.Feature:
 		return x.ID.(int)
 	}
@@ -105,6 +121,21 @@ func c19run(t *quadtree.Quadtree, q *c19query, b []orb.Pointer) []orb.Pointer {
 		return t.KNearestMatching(b, q.p, q.k, c19filters[q.filter])
 	case 4:
 		return t.InBound(b, q.box)
+	case 6:
+		// a search whose filter gives up by panicking after it has accepted some candidates (the caller recovers): that
+		// search has no answer; what it leaves behind must not reach any later search, on this tree or another
+		func() {
+			defer func() { recover() }()
+			seen := 0
+			t.Matching(q.p, func(p orb.Pointer) bool {
+				seen++
+				if seen > 1+q.k%3 {
+					panic("filter gives up")
+				}
+				return true
+			})
+		}()
+		return nil
 	default:
 		return t.InBoundMatching(b, q.box, c19filters[q.filter])
 	}
@@ -196,6 +227,10 @@ func init() {
 								return
 							}
 						}
+						if i == 3 && idx%2 == 1 {
+							it = (*c19nilable)(nil) // one stored value is a nil pointer of a type that answers Point() all the same
+							p = it.Point()
+						}
 						twin.Add(it)
 						if err := tree.Add(it); err != nil {
 							c.Fail("", "Add failed while building the tree", map[string]interface{}{"config": cfg, "point": sv(p), "err": err.Error()})
@@ -229,6 +264,9 @@ func init() {
 					for i := range qs {
 						q := &qs[i]
 						q.kind = r.Intn(6)
+						if r.P(1, 10) {
+							q.kind = 6
+						}
 						q.p = orb.Point{r.Uniform(-50, 1074), r.Uniform(-50, 1074)}
 						if len(items) > 0 && r.Bool() {
 							q.p = items[r.Intn(len(items))].Point()
@@ -302,7 +340,15 @@ func init() {
 							c.Fail("", "a query on a tree that holds nothing returned pointers", map[string]interface{}{"config": cfg, "query": fmt.Sprintf("%+v", qs[i]), "returned": len(res)})
 							return
 						}
-						if qs[i].useBuf != 0 && qs[i].kind >= 2 {
+						if k := qs[i].kind; k == 1 || k == 3 || k == 5 {
+							for _, p := range res {
+								if f := c19filters[qs[i].filter]; f != nil && !f(p) {
+									c.Fail("", "a matching query returned a pointer its filter does not accept", map[string]interface{}{"config": cfg, "query": fmt.Sprintf("%+v", qs[i]), "returned_id": c19id(p)})
+									return
+								}
+							}
+						}
+						if qs[i].useBuf != 0 && qs[i].kind >= 2 && qs[i].kind != 6 {
 							slast = res
 						}
 					}
@@ -352,7 +398,7 @@ func init() {
 										e0 = atomic.LoadUint64(&c19events)
 									}
 									res := c19run(tree, &qs[qi], pick(&qs[qi], buf, last))
-									if qs[qi].useBuf != 0 && qs[qi].kind >= 2 {
+									if qs[qi].useBuf != 0 && qs[qi].kind >= 2 && qs[qi].kind != 6 {
 										last = res
 									}
 									if !bare {
